@@ -164,6 +164,29 @@ def stringContentList : List Tlv → Bytes
   | x :: xs => stringContent x ++ stringContentList xs
 end
 
+-- primitive segments (unused-bit count, data) of a possibly nested constructed BIT STRING (X.690 §8.6.4)
+mutual
+def bitLeaves : Tlv → Option (List (Nat × Bytes))
+  | .prim _ _ (u :: bs) => some [(u, bs)]
+  | .prim _ _ [] => none
+  | .cons _ _ cs => bitLeavesList cs
+def bitLeavesList : List Tlv → Option (List (Nat × Bytes))
+  | [] => some []
+  | x :: xs =>
+    match bitLeaves x, bitLeavesList xs with
+    | some a, some b => some (a ++ b)
+    | _, _ => none
+end
+
+/-- only the last segment may have unused bits -/
+def combineBits : List (Nat × Bytes) → Option (Bytes × Nat)
+  | [] => some ([], 0)
+  | [(u, bs)] => if u ≤ 7 ∧ (bs = [] → u = 0) then some (bs, u) else none
+  | (0, bs) :: rest => (combineBits rest).map fun (r, u) => (bs ++ r, u)
+  | _ => none
+
+def bitSegments (cs : List Tlv) : Option (Bytes × Nat) := (bitLeavesList cs).bind combineBits
+
 def decPrim (p : Prim) (x : Tlv) : Option Val :=
   match p, x with
   | .boolean, .prim _ _ [b] => some (.bool (b != 0))
@@ -176,6 +199,7 @@ def decPrim (p : Prim) (x : Tlv) : Option Val :=
     | _ => none
   | .octets, x => some (.octets (stringContent x))
   | .bits, .prim _ _ (u :: bs) => if u ≤ 7 ∧ (bs = [] → u = 0) then some (.bits (maskLast bs u) u) else none
+  | .bits, .cons _ _ cs => (bitSegments cs).map fun (bs, u) => .bits (maskLast bs u) u
   | _, _ => none
 
 mutual
